@@ -341,12 +341,12 @@ fn readback_oracle(c: &ReadBack) -> Verdict {
 
 pub fn subs() -> Vec<Box<dyn DynSub>> {
     vec![
-        sub(Sub { name: "c02.from_total", source: Source::Gen(from_total_strategy, 500_000, 20_000_000), oracle: from_total_oracle, known: no_known, hang_is_violation: false }),
-        sub(Sub { name: "c02.from_parts", source: Source::Gen(from_parts_strategy, 500_000, 20_000_000), oracle: from_parts_oracle, known: no_known, hang_is_violation: false }),
-        sub(Sub { name: "c02.unit_int", source: Source::Gen(unit_int_strategy, 600_000, 20_000_000), oracle: unit_int_oracle, known: no_known, hang_is_violation: false }),
-        sub(Sub { name: "c02.compose", source: Source::Gen(compose_strategy, 400_000, 10_000_000), oracle: compose_oracle, known: no_known, hang_is_violation: false }),
-        sub(Sub { name: "c02.std", source: Source::Gen(std_strategy, 400_000, 10_000_000), oracle: std_oracle, known: no_known, hang_is_violation: false }),
-        sub(Sub { name: "c02.trunc", source: Source::Gen(trunc_strategy, 800_000, 30_000_000), oracle: trunc_oracle, known: no_known, hang_is_violation: false }),
-        sub(Sub { name: "c02.readback", source: Source::Gen(readback_strategy, 500_000, 20_000_000), oracle: readback_oracle, known: readback_known, hang_is_violation: false }),
+        sub(Sub { name: "c02.from_total", source: Source::Gen(from_total_strategy, 2_000_000, 20_000_000), oracle: from_total_oracle, known: no_known, hang_is_violation: false }),
+        sub(Sub { name: "c02.from_parts", source: Source::Gen(from_parts_strategy, 2_000_000, 20_000_000), oracle: from_parts_oracle, known: no_known, hang_is_violation: false }),
+        sub(Sub { name: "c02.unit_int", source: Source::Gen(unit_int_strategy, 2_400_000, 20_000_000), oracle: unit_int_oracle, known: no_known, hang_is_violation: false }),
+        sub(Sub { name: "c02.compose", source: Source::Gen(compose_strategy, 1_600_000, 10_000_000), oracle: compose_oracle, known: no_known, hang_is_violation: false }),
+        sub(Sub { name: "c02.std", source: Source::Gen(std_strategy, 1_600_000, 10_000_000), oracle: std_oracle, known: no_known, hang_is_violation: false }),
+        sub(Sub { name: "c02.trunc", source: Source::Gen(trunc_strategy, 3_200_000, 30_000_000), oracle: trunc_oracle, known: no_known, hang_is_violation: false }),
+        sub(Sub { name: "c02.readback", source: Source::Gen(readback_strategy, 2_000_000, 20_000_000), oracle: readback_oracle, known: readback_known, hang_is_violation: false }),
     ]
 }
